@@ -104,6 +104,29 @@ func runAllocs(out *bufio.Writer, st *Stats, r *Rng, tier string) {
 				ws, rs := writeStripedRawCall(ok, k), readStripedRawCall(k, ok)
 				measure(out, st, "writeStriped", det+"/"+ok.String(), func() { sinkInt = ws(scols, full) })
 				measure(out, st, "readStriped", det+"/"+ok.String(), func() { sinkInt = rs(full, scols) })
+				// ragged striped input: a nil channel, shorter and longer channels than the buffer
+				if ch > 1 {
+					rag := make([]DynSlice, ch)
+					for c := range rag {
+						switch c % 3 {
+						case 0:
+							rag[c] = NewSlice(ok, nil, true)
+						case 1:
+							rag[c] = NewSlice(ok, make([]uint64, L/2), false)
+						default:
+							rag[c] = NewSlice(ok, make([]uint64, L+3), false)
+						}
+					}
+					srag := stripedAny(ok, rag)
+					measure(out, st, "writeStriped", det+"/"+ok.String()+"/ragged", func() { sinkInt = ws(srag, full) })
+					measure(out, st, "readStriped", det+"/"+ok.String()+"/ragged", func() { sinkInt = rs(full, srag) })
+				}
+				// interleaved forms with shorter and longer caller slices
+				if L > 0 {
+					short := NewSlice(ok, make([]uint64, (ch*L)/2), false)
+					measure(out, st, "write", det+"/"+ok.String()+"/short", func() { sinkInt = wr(short, full) })
+					measure(out, st, "read", det+"/"+ok.String()+"/short", func() { sinkInt = rd(full, short) })
+				}
 				// all nine conversions are reached through the kind pairs
 				dk := kinds[r.Intn(len(kinds))]
 				d := Alloc(dk, false, signal.Allocator{Channels: ch, Length: L, Capacity: L + 1})
